@@ -52,6 +52,7 @@ pub fn scenarios(prop: &str, tier: Tier) -> Vec<ScenarioDef> {
         "C19" => crate::c19::scenarios(tier),
         "C17" => crate::c17::scenarios(tier),
         "C18" => crate::c18::scenarios(tier),
+        "C20" => crate::c20::scenarios(tier),
         _ => Vec::new(),
     }
 }
